@@ -15,14 +15,18 @@ import orchestrate
 import tlc
 
 DESIGN = {  # tier -> (module, cfg, serves)
-    "quick": [("FixPipeline", "MC_FixPipeline_quick.cfg", {"C01", "C02", "C03", "C07", "C18"})],
-    "thorough": [("FixPipeline", "MC_FixPipeline_thorough.cfg", {"C01", "C02", "C03", "C07", "C18"})],
+    "quick": [("FixPipeline", "MC_FixPipeline_quick.cfg", {"C01", "C02", "C03", "C07", "C18"}),
+              ("FixSchedule", "MC_FixSchedule_quick.cfg", {"C03", "C09", "C10", "C08", "C19"})],
+    "thorough": [("FixPipeline", "MC_FixPipeline_thorough.cfg", {"C01", "C02", "C03", "C07", "C18"}),
+                 ("FixSchedule", "MC_FixSchedule_thorough.cfg", {"C03", "C09", "C10", "C08", "C19"})],
 }
 MUTANTS = [  # (module, cfg, invariant that must be reported violated)
     ("FixPipeline", "Mutant_FixPipeline_Forward.cfg", "C18_StepIsSumOfHunks"),
     ("FixPipeline", "Mutant_FixPipeline_Overlap.cfg", "C18_StepIsSumOfHunks"),
     ("FixPipeline", "Mutant_FixPipeline_NoRemap.cfg", "C18_IndexAgrees"),
     ("FixPipeline", "Mutant_FixPipeline_CaseLit.cfg", "C01_CodePreserved"),
+    ("FixSchedule", "Mutant_FixSchedule_LinesIgnored.cfg", "Inv_C20_OnlyListed"),
+    ("FixSchedule", "Mutant_FixSchedule_OffByOne.cfg", "Inv_C13_FixPhase"),
 ]
 
 FAMILY = ["C01", "C02", "C03", "C07", "C08", "C09", "C10", "C18", "C19"]
@@ -113,7 +117,7 @@ def build_items(tier, seed, wd):
     return items, sweeps
 
 
-FAMILY_FILES = ['harness/fixfam.py', 'harness/runfix.py', 'harness/configs.py', 'harness/variants.py', 'harness/vlex.py', 'spec/Edits.tla', 'spec/FixTrace.tla', 'spec/FixTrace.cfg', 'spec/FixPipeline.tla', 'spec/MC_FixPipeline_quick.cfg', 'spec/MC_FixPipeline_thorough.cfg']
+FAMILY_FILES = ['spec/FixSchedule.tla', 'spec/MC_FixSchedule_quick.cfg', 'spec/MC_FixSchedule_thorough.cfg', 'harness/fixfam.py', 'harness/runfix.py', 'harness/configs.py', 'harness/variants.py', 'harness/vlex.py', 'spec/Edits.tla', 'spec/FixTrace.tla', 'spec/FixTrace.cfg', 'spec/FixPipeline.tla', 'spec/MC_FixPipeline_quick.cfg', 'spec/MC_FixPipeline_thorough.cfg']
 
 
 def collect(tier):
@@ -143,7 +147,13 @@ def run_design(tier):
         t0 = time.time()
         res = tlc.model_check(module, cfg, workers=16, timeout=1800)
         out.append({"module": module, "cfg": cfg, "ok": res.ok, "states": res.states, "distinct": res.distinct, "wall": round(time.time() - t0, 1),
-                    "error": res.error[:500], "props": sorted(props)})
+                    "error": res.error[:500], "props": sorted(props), "expect": "no error"})
+    # vacuity guard: every mechanism mutant must still produce its counterexample
+    for module, cfg, inv in MUTANTS:
+        t0 = time.time()
+        res = tlc.model_check(module, cfg, workers=8, timeout=900)
+        out.append({"module": module, "cfg": cfg, "ok": ("Invariant %s is violated" % inv) in res.out, "states": res.states, "distinct": res.distinct,
+                    "wall": round(time.time() - t0, 1), "error": res.error[:300], "props": [], "expect": inv + " violated"})
     return out
 
 
